@@ -95,6 +95,9 @@ def split_dump(text):
     return out
 
 
+VISC = re.compile(r"^  -(viscosity|viscos_0)\s")
+
+
 def canon(kind, lines):
     """content lines used for 'same content' comparisons. KINETICS: the trailing `-totals` block is a workspace that
     list_components (GetComponentCount) refills in the stored object itself (calc_dummy_kinetic_reaction_tally), so it
@@ -103,6 +106,10 @@ def canon(kind, lines):
         for i in range(len(lines) - 1, -1, -1):
             if lines[i].startswith("  -totals"):
                 return lines[:i]
+    if kind == "solution":
+        # derived transport data that calculations *using* a solution write back into the stored object
+        # (initial_surfaces / initial_exchangers: use.Get_solution_ptr()->Set_viscosity(...)); counted separately
+        return [ln for ln in lines if not VISC.match(ln)]
     return lines
 
 
@@ -220,6 +227,8 @@ def run_model(ctx, histories, templates, cfg):
             obs = {"stop": None if w[1] == "ok" else w[2:], "E": [], "T": {}}
             cur.append(obs)
             cnt += 1
+        elif w[0] == "F":
+            obs["fstop"] = None if w[1] == "ok" else w[2:]
         elif w[0] == "E":
             obs["E"].append((w[1], int(w[2]), int(w[3])))
         elif w[0] == "T":
@@ -262,6 +271,7 @@ class Judge:
     def __init__(self, phases, blocks_by_id):
         self.phases = phases
         self.memo = {}        # token -> (kind, desc, lines)
+        self.rawmemo = {}
         self.prov = {}        # token -> provenance words
         self.blocks = blocks_by_id
         self.stats = {"entries": 0, "memo_hits": 0, "mod_checked": 0, "comp_checked": 0, "stops": 0}
@@ -305,9 +315,15 @@ class Judge:
                 return ("bad", f"call {ci}: engine stopped with {stop}, model predicts {mstop}")
             if stop[0] in ("mixmissing", "inputerrors") and mstop[0] != stop[0]:
                 return ("bad", f"call {ci}: engine stopped with {stop}, model predicts {mstop}")
-        _, other2 = classify_errors(eng.get("err2", ""))
+        stop2, other2 = classify_errors(eng.get("err2", ""))
         if other2:
             return ("unjudged", "observing run: " + other2[0][:120])
+        fstop = mod.get("fstop")
+        if (stop2 is None) != (fstop is None) or (stop2 and stop2[0] != fstop[0]):
+            return ("bad", f"call {ci}: observing run: engine stop {stop2} vs model stop {fstop}")
+        if stop2:
+            self.stats["stops"] += 1
+            return None           # no dump was written; the pending request stays pending in both
         ents = split_dump(eng["dump"])
         keys_e = [(k, n) for k, n, _, _ in ents]
         keys_m = [(k, n) for k, n, _ in mod["E"]]
@@ -325,18 +341,21 @@ class Judge:
             if tok in self.memo:
                 self.stats["memo_hits"] += 1
                 k0, d0, l0 = self.memo[tok]
+                if k == "solution" and self.rawmemo.get(tok) != rawlines:
+                    self.stats["viscosity_rewritten"] = self.stats.get("viscosity_rewritten", 0) + 1
                 if (k0, d0, l0) != (k, desc, lines):
                     diff = [(a, b) for a, b in zip(l0, lines) if a != b][:3]
                     return ("bad", f"call {ci}: {k} {n} should hold the same content as seen before for token {tok} "
                                    f"({' '.join(self.prov.get(tok, []))}) but differs: {diff or (len(l0), len(lines), d0, desc)}")
             else:
                 self.memo[tok] = (k, desc, lines)
+                self.rawmemo[tok] = rawlines
                 p = self.prov.get(tok, [])
                 if p and p[0] == "mod" and int(p[2]) in self.memo:
                     e = self.check_modify(k, n, tok, p, lines)
                     if e:
                         return ("bad", f"call {ci}: " + e)
-        if not stop and "comps" in eng:
+        if not stop and not stop2 and "comps" in eng:
             comps = set(eng["comps"])
             for k, n, desc, lines in ents:
                 els = entry_elements(k, lines, self.phases) - {"H", "O", "E", "X", "Charge", "Alkalinity"}
@@ -448,8 +467,12 @@ def runcells_pairs(rng, n):
     for _ in range(n):
         c = rng.randint(1, 4)
         ids = iter(range(1, 100))
-        kinds = ["solution"] + [k for k in ["pp", "exchange", "surface", "gas", "ss", "reaction", "temperature", "pressure", "kinetics"]
-                                if rng.random() < 0.45]
+        rk = ["pp", "exchange", "surface", "gas", "ss", "reaction", "temperature", "pressure", "kinetics"]
+        kinds = ["solution"] + [k for k in rk if rng.random() < 0.45]
+        if len(kinds) == 1:
+            # a lone solution is not a batch reaction for USE/SAVE (set_use returns FALSE) while RUN_CELLS re-speciates
+            # and re-saves it: the comparison is made for cells that hold at least one reactant
+            kinds.append(rng.choice(rk))
         defs = []
         for k in kinds:
             defs.append({"op": "def", "kind": k, "n": c, "m": None, "id": next(ids), "item": rng.randint(0, 11)})
@@ -627,7 +650,7 @@ def run(ctx):
         hist_stats(h, hist)
     nchunk = max(1, min(len(hists) // 4, vlib.NCPU * 2))
     chunks = [hists[i::nchunk] for i in range(nchunk)]
-    totals = {"entries": 0, "memo_hits": 0, "mod_checked": 0, "comp_checked": 0, "stops": 0}
+    totals = {"entries": 0, "memo_hits": 0, "mod_checked": 0, "comp_checked": 0, "stops": 0, "viscosity_rewritten": 0}
     unjudged, judged_calls, bad = {}, 0, None
     with concurrent.futures.ThreadPoolExecutor(max_workers=vlib.NCPU) as ex:
         futs = [ex.submit(check_chunk, ctx, exe, db, phases, templates, cfg, c) for c in chunks]
